@@ -1775,8 +1775,8 @@ class RTCSctpTransport(AsyncIOEventEmitter):
             channel_type,
             priority,
             reliability,
-            len(channel.label),
-            len(channel.protocol),
+            len(channel.label.encode("utf8")),
+            len(channel.protocol.encode("utf8")),
         )
         data += channel.label.encode("utf8")
         data += channel.protocol.encode("utf8")
